@@ -1,5 +1,6 @@
 import SJ.Proofs.Tables
 import SJ.Proofs.Numeric
+import SJ.Proofs.Lookup
 /-
 C12 — Lookup, filtered iteration and bulk accessors agree with plain traversal.
 -/
@@ -44,5 +45,43 @@ theorem C12_bulk_eq_traversal (pj : PJ) (kind : View.NumKind) (ws : List (UInt64
     (hn : NumsAt pj a.off ws) (hl : a.off + 2 * ws.length < a.lim) (hf : ws.length < fuel) :
     View.asNum pj kind a acc fuel = traverse kind pj a.iter ws acc :=
   asNum_eq_traverse pj kind ws a acc fuel hn hl hf
+
+open SJ.Layout SJ.WalkLayout SJ.Lookup in
+/-- **FindKey** returns the first member (in tape order) with the given key — positioned on its value, with its
+    type — or nil; gaps anywhere in the object do not matter. (`key.size < 2^63`: the code compares `int(length)`.) -/
+theorem C12_findKey (pj : PJ) (p e : Nat) (ms : LMems) (key : Bytes) (hkey : key.size < 2 ^ 63)
+    (hok : Ok pj (.obj p e ms)) :
+    View.findKey pj key (View.iter { lim := e, off := p + 1 }) (fuelOf pj) =
+      .ok ((firstWithKey key ms).map fun r => (tagToType (tagOfL r.2), elemIter pj r.2)) :=
+  findKey_spec_fuelOf pj p e ms key hkey hok
+
+open SJ.Layout SJ.WalkLayout SJ.Lookup in
+/-- **ForEach with a key filter** (keys unique within the object, or no filter): exactly the members whose key is
+    in the filter, in order, each with its own key and a cursor on its own value. -/
+theorem C12_forEach (pj : PJ) (p e : Nat) (ms : LMems) (ks : List Bytes) (hok : Ok pj (.obj p e ms))
+    (h : ks = [] ∨ (memKeys ms).Nodup) :
+    View.forEach pj ks (View.iter { lim := e, off := p + 1 }) 0 #[] (fuelOf pj) =
+      .ok ((membersWithKeys ks ms).map (cbOf pj e)).toArray := forEach_exact pj p e ms ks hok h
+
+open SJ.Layout SJ.WalkLayout SJ.Lookup in
+/-- **FindPath**: the value reached by taking the first member with each key in turn; `ErrPathNotFound` when a
+    key is absent (or the path is empty), the generic error when the path continues through a non-object
+    (`pathSpec`, with `pathSpec_none` / `pathSpec_nonobj` naming the error kinds). -/
+theorem C12_findPath (pj : PJ) (p e : Nat) (ms : LMems) (key : Bytes) (rest : List Bytes)
+    (hkeys : ∀ k ∈ key :: rest, k.size < 2 ^ 63) (hok : Ok pj (.obj p e ms)) :
+    View.findPathTop pj { lim := e, off := p + 1 } (key :: rest) = mapRes (elemOf pj) (pathSpec key rest ms) :=
+  findPathTop_spec pj p e ms key rest hkeys hok
+
+open SJ.Layout SJ.WalkLayout SJ.Lookup in
+/-- **Object.Parse** lists every member in order (duplicates included) … -/
+theorem C12_parse (pj : PJ) (p e : Nat) (ms : LMems) (hok : Ok pj (.obj p e ms)) (ht : TightTop ms) :
+    View.parse pj { lim := e, off := p + 1 } #[] (fuelOf pj) = .ok ((membersWithKeys [] ms).map (elemRec pj)).toArray :=
+  parse_spec_fuelOf pj p e ms hok ht
+
+open SJ.Layout SJ.WalkLayout SJ.Lookup in
+/-- … and **Object.Map** is those members inserted in order (the last duplicate wins), values by `Interface()`. -/
+theorem C12_map (pj : PJ) (p e : Nat) (ms : LMems) (hok : Ok pj (.obj p e ms)) (ht : TightMs ms) :
+    View.objMap pj { lim := e, off := p + 1 } [] (fuelOf pj) = .ok ((toIMems ms).foldl (fun m kv => mapInsert m kv.1 kv.2) []) :=
+  objMap_spec_fuelOf pj p e ms hok ht
 
 end SJ.Properties.C12
